@@ -113,8 +113,16 @@ func New(sched *Tape) *Sim {
 func (s *Sim) Close() { cur.CompareAndSwap(s, nil) }
 
 func (s *Sim) Now() time.Duration { return time.Since(s.start) }
-func (s *Sim) Steps() int         { return s.steps }
-func (s *Sim) Fingerprint() uint64 { return s.hash }
+func (s *Sim) Steps() int {
+	s.mu.Lock()
+	defer s.mu.Unlock()
+	return s.steps
+}
+func (s *Sim) Fingerprint() uint64 {
+	s.mu.Lock()
+	defer s.mu.Unlock()
+	return s.hash
+}
 func (s *Sim) OrderFingerprint() uint64 { return s.orderHash }
 func (s *Sim) ChoicePoints() int  { return s.choicePoints }
 func (s *Sim) Draining() bool     { return s.draining.Load() }
